@@ -105,6 +105,7 @@ type mInst struct {
 	globs    []*mGlob
 	funcs    []*mFunc
 	exports  map[string]mExport
+	impFrom  []string // per import: the instance it was resolved against (store name, or what the ImportResolver answered)
 	passElem [][]mRef
 	passData [][]byte
 	live     bool
@@ -115,6 +116,9 @@ type model struct {
 	pageLimit uint32
 	nextID    int
 	host      bool // host module "env" present
+	// resolver: what the experimental ImportResolver in the instantiation context answers (import module name ->
+	// instance name); names it does not contain are declined and looked up in the store. nil: no resolver.
+	resolver map[string]string
 }
 
 func newModel(pageLimit uint32, host bool) *model {
@@ -139,7 +143,11 @@ func (m *model) lookup(im ImportSpec) (mExport, bool) {
 		}
 		return mExport{kind: wenc.ExtFunc, fn: &mFunc{typ: t, host: im.Name}}, true
 	}
-	in, ok := m.insts[im.Mod]
+	name := im.Mod
+	if to, ok := m.resolver[im.Mod]; ok {
+		name = to // the resolver takes precedence over the store
+	}
+	in, ok := m.insts[name]
 	if !ok || !in.live {
 		return mExport{}, false
 	}
@@ -194,6 +202,11 @@ func (m *model) instantiateAs(spec *ModSpec, name string) instResult {
 			return instResult{Fail: "link:" + why}
 		}
 		bound = append(bound, e)
+		from := im.Mod
+		if to, ok := m.resolver[im.Mod]; ok {
+			from = to
+		}
+		in.impFrom = append(in.impFrom, from)
 	}
 	for j, e := range bound {
 		switch e.kind {
